@@ -31,9 +31,11 @@ from harness.c11 import parse_prog, _forms
 RULE = ('case = (program, external cancel instant): timeout programs (cancel at every odd instant '
         'of the lifetime; deadlines and wake-ups are even), timeout programs with task groups of '
         'the model language and of the wider oracle-only language (cancel one tick after every '
-        'instant at which a timer of the uncancelled run is due), and session tasks '
-        '(send_request / send_notification / send_batch / request handler) cancelled at odd '
-        'instants; non-trivial = cancel delivered while the task is alive and (an inner timeout '
+        'instant at which a timer of the uncancelled run is due, and at six loop-iteration '
+        'placements around the moment a member finishes by itself), and session tasks '
+        '(send_request / send_notification / send_batch / request handler, with and without a '
+        'history that lowered the concurrency target) cancelled at odd instants, the '
+        'process_messages task cancelled around a handler\'s completion; non-trivial = cancel delivered while the task is alive and (an inner timeout '
         'had already expired or >=2 blocks or a group was active); distinct = distinct '
         '(program, instant)')
 
